@@ -151,3 +151,28 @@ def trace_stats(cases, outs):
             keys[k] = keys.get(k, 0) + 1
     return {"records_after_projection": n_rec, "param_usage": keys,
             "panics": sum(1 for o in outs if o == [[-999]])}
+
+
+def with_unprotected_probes(outs):
+    """around every datagram that consists of an unprotected packet (header flags: Retry 16 / Version
+    Negotiation 64, no other packet) and was handed to a connection: that connection's latest probe
+    before it (a copy re-tagged 19, inserted before the RX record) and the probe taken right after it
+    (tag 18) - all other tag-18 records are dropped.  Consumed by MonC04."""
+    lastprobe, want, res = {}, None, []
+    for r in outs:
+        if r and r[0] in (8, 18):
+            if r[0] == 18:
+                if want == (r[2], r[3]):
+                    res.append(r)
+                    want = None
+            else:
+                res.append(r)
+            lastprobe[(r[2], r[3])] = r
+            continue
+        if r and r[0] == 2 and len(r) > 10 and r[5] == 1 and r[6] >= 0 and (r[10] & 80) and not (r[10] & 46):
+            kk = (r[2], r[6])
+            if kk in lastprobe:
+                res.append([19] + lastprobe[kk][1:])
+                want = kk
+        res.append(r)
+    return res
